@@ -43,11 +43,24 @@ def run(ctx):
     probe = text.P()
     pool = ['urn:verif:c14:%d' % i for i in range(12)] + ['', None, X.TEXTNS, 'http://www.w3.org/1999/xlink', 'urn:q"uote\'s', 'urn:amp&<>']
     args = ['of:=A1', 'ooow:x', 'nocolon', 'unknownp:rest', 'xlink:href', ':lead', 'ns42:x', 'msoxl:=SUM(A1)', 'of:', 'text:p:q']
+    # one package of the family loaded ahead of the histories: the namespaces every such package uses (office, meta, dc, config ...)
+    # are in the table of used namespaces from here on, so that a load inside a history adds its foreign namespace and nothing else
+    from odf.opendocument import load as load_
+    load_(io.BytesIO(C01.foreign_package('ext', 'urn:verif:warm')))
     for h in range(60 if ctx.quick else 1500):
         nd0, nsp0 = real_tables()
         ops = []; rets = []
         for _ in range(ctx.rng.randint(1, 6)):
-            if ctx.rng.random() < 0.65:
+            if h % 3 == 0 and ctx.rng.random() < 0.4:
+                # a package that binds a prefix of the library's own making (nsK, as a file written in another run does) to a foreign
+                # namespace: K a little ahead of, at, or behind the size of the table. To the tables, loading it is a request for a prefix
+                # for that namespace and nothing else - the prefix the file uses plays no part
+                from odf.opendocument import load
+                ns = 'urn:verif:rnd:%d' % ctx.rng.randint(0, 10 ** 6) if ctx.rng.random() < 0.7 else ctx.rng.choice(pool[:12])
+                k = len(real_tables()[0]) + ctx.rng.choice([-1, 0, 1, 1, 2, 3])
+                load(io.BytesIO(C01.foreign_package('ns%d' % k, ns)))
+                ops.append(['P', ns]); rets.append(None); ctx.bump('history-op=load(ns%+d)' % (k - len(real_tables()[0]) + 1))
+            elif ctx.rng.random() < 0.65:
                 ns = ctx.rng.choice(pool) if ctx.rng.random() < 0.8 else 'urn:verif:rnd:%d' % ctx.rng.randint(0, 10 ** 6)
                 rets.append(probe.get_nsprefix(ns)); ops.append(['P', ns or ''])
             else:
